@@ -3,6 +3,8 @@
 package props
 
 import (
+	"strconv"
+	"slices"
 	"cmp"
 	"fmt"
 	"math"
@@ -31,7 +33,7 @@ func init() {
 					"LCS/LCSFunc: every pair over alphabet 2 x length <= 7 and alphabet 3 x length <= 5 (exhaustive) plus random pairs up to 300 of very different lengths and pairs of 4100..11700 elements (length products past 2^24..2^27). " +
 					"Checks: returned elements identify strictly increasing positions of the input (for LCS: of one input, and their values form a subsequence of the other), strict / non-strict order under the comparator used, length == quadratic reference, inputs unmodified; 8 goroutines call LIS/LNDS/LCS concurrently on unshared inputs (plain and under -race), a comparison callback that itself calls LIS (re-entrancy), and LCS instantiated with interface-typed elements; interleaved with all of it, calls that are abandoned half-way (the comparison function panics after m calls and the caller recovers) so that every verified call also runs right after a failed one. " +
 					"distinct = the input (enumerated without repetition; random by hash); non-trivial = the input has a repeated value (ties)",
-				Required:     []string{"lis_inputs", "lnds_inputs", "lcs_pairs", "wide_comparator_inputs", "reversed_comparator_inputs", "lcs_unequal_length_pairs", "structured_two_run_inputs", "concurrent_calls", "reentrant_calls", "interface_element_cases", "abandoned_calls", "very_large_inputs", "wraparound_schedules"},
+				Required:     []string{"lis_inputs", "lnds_inputs", "lcs_pairs", "wide_comparator_inputs", "reversed_comparator_inputs", "lcs_unequal_length_pairs", "structured_two_run_inputs", "concurrent_calls", "reentrant_calls", "interface_element_cases", "abandoned_calls", "very_large_inputs", "wraparound_schedules", "very_long_answer_inputs"},
 				Exhaustive:   true,
 				Assumptions:  []string{"quadratic DP references for LIS/LNDS/LCS lengths"},
 				CoverPkgs:    []string{"github.com/creachadair/mds/slice"},
@@ -700,6 +702,77 @@ func runC12(c *fw.Ctx) {
 			c.Add("lcs_pairs", 1)
 			c.Add("lcs_unequal_length_pairs", 1)
 		}
+	}
+	// very long answers: an almost sorted input of 8 million elements (3 million in
+	// the 32-bit build) has an answer nearly as long; whatever the functions do
+	// per element of the answer (recursion, copying) is multiplied accordingly
+	if (c.Flavour == "plain" || c.Flavour == "386") && c.Block < 2 && c.Begin(idx+400300+c.Block) {
+		n := 8000000
+		if strconv.IntSize == 32 {
+			n = 3000000
+		}
+		r := c.Rng()
+		vs := make([]int32, n)
+		for i := range vs {
+			vs[i] = int32(i)
+			if r.IntN(997) == 0 {
+				vs[i] = int32(r.IntN(n)) // a few elements out of place
+			}
+		}
+		keep := append([]int32(nil), vs...)
+		var out []int32
+		name := []string{"LIS", "LNDS"}[c.Block]
+		c.Call("slice.%s on %d almost sorted elements", name, n)
+		ok, pv, stack := fw.Try(func() {
+			if c.Block == 0 {
+				out = slice.LIS(vs)
+			} else {
+				out = slice.LNDS(vs)
+			}
+		})
+		data := map[string]any{"func": name, "elements": n, "input": "0..n-1 with about one element in a thousand replaced by a random value"}
+		switch {
+		case !ok:
+			c.FailKind("panic", data, "%s panicked: %v\n%s", name, pv, stack)
+		case !slices.Equal(vs, keep):
+			c.Fail(data, "%s modified its input", name)
+		default:
+			// subsequence (greedy), order, and length against patience sorting
+			j := 0
+			for i, v := range out {
+				for j < n && keep[j] != v {
+					j++
+				}
+				if j == n {
+					c.Fail(data, "%s: output element %d is not found in the input after its predecessor", name, i)
+					break
+				}
+				j++
+				if i > 0 && (out[i-1] > v || (c.Block == 0 && out[i-1] == v)) {
+					c.Fail(data, "%s: output not ordered at index %d", name, i)
+					break
+				}
+			}
+			var tails []int32
+			for _, v := range keep {
+				k := sort.Search(len(tails), func(k int) bool {
+					if c.Block == 0 {
+						return tails[k] >= v
+					}
+					return tails[k] > v
+				})
+				if k == len(tails) {
+					tails = append(tails, v)
+				} else {
+					tails[k] = v
+				}
+			}
+			if len(out) != len(tails) {
+				c.Fail(data, "%s: output has length %d, the optimum is %d", name, len(out), len(tails))
+			}
+			c.Max("max:answer_length", int64(len(out)))
+		}
+		c.Add("very_long_answer_inputs", 1)
 	}
 	// wrap-around schedule: a larger call, exactly N one-element calls (N around
 	// 2^8, 2^9, 2^16, 2^17; one N per block), then a larger call on other content
